@@ -15,7 +15,7 @@ import (
 
 func init() {
 	suites["aside"] = suite{
-		rule: "C39: (1) script-level: acquireLock / setkey / delkey on the fake with own, foreign and missing placeholders and values vs the Lean script models; (2) end-to-end episodes: real rueidisaside clients (UseLuaLock on/off, typed client wrapper) over the fake server with client-side caching and invalidation pushes; concurrent Gets (goroutines) of up to three clients on one key with harness-controlled loaders (success, failure, values carrying the placeholder prefix), a read/finish race (`get-race`: the holder stores its value exactly between a waiter's read of the placeholder and the waiter's next action, ordered by a hook in the fake), Del, key expiry, foreign writes, client death (liveness key expiry) and refresh, context cancellation of parked Gets; after every event the system runs to quiescence and the anonymous state (key kind, loading/parked counts, sorted results, loader count) is compared with the Lean automaton run to quiescence; '!results' oracle lines are judged by the specification (every returned value is a loader output or a stored value and never a placeholder); the harness itself flags two simultaneous loaders, placeholder leaks and lost wake-ups (a Get still parked when the key no longer holds a placeholder); non-trivial = distinct op within its episode prefix",
+		rule: "C39: (1) script-level: acquireLock / setkey / delkey on the fake with own, foreign and missing placeholders and values vs the Lean script models; (2) end-to-end episodes: real rueidisaside clients (UseLuaLock on/off, typed client wrapper) over the fake server with client-side caching and invalidation pushes; concurrent Gets (goroutines) of up to three clients on one key with harness-controlled loaders (success, failure, values carrying the placeholder prefix), two live clients releasing the same dead holder's lock with the second release delayed until the first client is loading (`dead-race`, ordered by gates; the release must be the delkey script on the placeholder value, never a plain DEL), a read/finish race (`get-race`: the holder stores its value exactly between a waiter's read of the placeholder and the waiter's next action, ordered by a hook in the fake), Del, key expiry, foreign writes, client death (liveness key expiry) and refresh, context cancellation of parked Gets; after every event the system runs to quiescence and the anonymous state (key kind, loading/parked counts, sorted results, loader count) is compared with the Lean automaton run to quiescence; '!results' oracle lines are judged by the specification (every returned value is a loader output or a stored value and never a placeholder); the harness itself flags two simultaneous loaders, placeholder leaks and lost wake-ups (a Get still parked when the key no longer holds a placeholder); non-trivial = distinct op within its episode prefix",
 		run:  runAside,
 		replay: func(c *Ctx, lines []string) {
 			ep := &asEp{}
@@ -55,6 +55,7 @@ type asEp struct {
 	// a Del, expiry, foreign write, holder death or loader failure happened while a loader ran: the
 	// property's hypothesis (holder alive, lock in place) no longer holds until the loaders are done
 	contested bool
+	stolen    []string
 	dead      bool
 	deadCl    map[int]bool // clients whose liveness key expired and was not refreshed since: holders by the protocol's definition dead
 }
@@ -153,6 +154,10 @@ func (e *asEp) judge(c *Ctx, line string) {
 	if n == 0 {
 		e.contested = false
 	}
+	for _, x := range e.stolen {
+		c.Fail("aside:live-placeholder-deleted-by-other-client", line, x)
+	}
+	e.stolen = nil
 	e.srv.mu.Lock()
 	kv := e.srv.keys[asKey]
 	locked := kv != nil && strings.HasPrefix(kv.s, rueidisaside.PlaceholderPrefix)
@@ -194,6 +199,27 @@ func (e *asEp) op(c *Ctx, line string) {
 		e.lua = len(w) > 1 && w[1] == "lua=1"
 		e.typed = len(w) > 2 && w[2] == "typed=1"
 		e.admin = newFakeClient(e.srv, 99, rueidis.ClientOption{})
+		e.stolen = nil
+		e.srv.onExec = func(l *logged) {
+			// (under the server mutex) a cache-aside client removed the key while it held the placeholder of
+			// ANOTHER client whose liveness key exists
+			if (l.name == "del" || l.name == "as.delkey") && l.cl != nil && l.cl.id != 99 && l.rep.typ == ':' && l.rep.n == 1 &&
+				len(l.keys) > 0 && l.keys[0] == asKey {
+				prev := l.prev
+				if l.name == "as.delkey" && len(l.args) > 0 {
+					prev = l.args[0]
+				}
+				if strings.HasPrefix(prev, rueidisaside.PlaceholderPrefix) && e.srv.keys[prev] != nil {
+					mine := false
+					for _, k := range e.srv.owner[l.cl.id] {
+						mine = mine || k == prev
+					}
+					if !mine {
+						e.stolen = append(e.stolen, fmt.Sprintf("connection %d removed the lock placeholder %s of a client whose liveness key exists (%s)", l.cl.id, prev, l.name))
+					}
+				}
+			}
+		}
 		e.clients, e.fcs, e.gets, e.loads, e.contested, e.deadCl = map[int]rueidisaside.CacheAsideClient{}, map[int]*fakeClient{}, nil, 0, false, map[int]bool{}
 		c.Emit(line, "ok", false)
 	case "s.acq", "s.set", "s.del": // script level: s.acq id | s.set id val | s.del id   (ids and values are plain words)
@@ -321,6 +347,81 @@ func (e *asEp) op(c *Ctx, line string) {
 		armed = false
 		e.srv.afterReply = nil
 		emit()
+	case "dead-race": // dead-race c1 c2: the key holds the placeholder of a dead client. Gets on c1 and c2 both read it
+		// and the missing liveness key; their releases of the dead lock are held at a gate; c1's goes first (c1 then
+		// locks and loads), c2's lands only then
+		cis := []int{int(w[1][0] - '0'), int(w[2][0] - '0')}
+		gates := map[*fakeClient]chan struct{}{}
+		var gmu sync.Mutex
+		var rel []string
+		isRelease := func(cmd []string) bool {
+			up := strings.ToUpper(cmd[0])
+			if up == "DEL" {
+				return len(cmd) == 2 && cmd[1] == asKey
+			}
+			return strings.HasPrefix(up, "EVAL") && len(cmd) > 4 && cmd[3] == asKey &&
+				(cmd[1] == "7726c7be95e2a0ed082ec1da1e26b562f5c8903f" || (strings.Contains(cmd[1], `redis.call("DEL"`) && !strings.Contains(cmd[1], `"SET"`)))
+		}
+		e.srv.beforeExec = func(cl *fakeClient, cmd []string) {
+			if len(cmd) == 0 || !isRelease(cmd) {
+				return
+			}
+			gmu.Lock()
+			ch := gates[cl]
+			delete(gates, cl) // one release per client is ordered
+			if ch != nil {
+				if strings.ToUpper(cmd[0]) == "DEL" {
+					rel = append(rel, "del")
+				} else {
+					rel = append(rel, "as.delkey")
+				}
+			}
+			gmu.Unlock()
+			if ch != nil {
+				<-ch
+			}
+		}
+		var chans []chan struct{}
+		for _, ci := range cis {
+			cc := e.client(ci)
+			ch := make(chan struct{})
+			chans = append(chans, ch)
+			gmu.Lock()
+			gates[e.fcs[ci]] = ch
+			gmu.Unlock()
+			ctx, cancel := context.WithCancel(context.Background())
+			g := &asGet{client: ci, cancel: cancel, release: make(chan loadRes)}
+			e.mu.Lock()
+			e.gets = append(e.gets, g)
+			e.mu.Unlock()
+			go func() {
+				val, err := cc.Get(ctx, time.Hour, asKey, func(ctx context.Context, key string) (string, error) {
+					e.mu.Lock()
+					g.loading = true
+					e.loads++
+					e.mu.Unlock()
+					r := <-g.release
+					return r.val, r.err
+				})
+				e.mu.Lock()
+				g.done, g.val, g.err = true, val, err
+				e.mu.Unlock()
+			}()
+			settle()
+		}
+		for _, ch := range chans {
+			close(ch)
+			settle()
+		}
+		e.srv.beforeExec = nil
+		if !settle() {
+			e.dead = true
+			c.Emit(line, "not-quiescent", true)
+			return
+		}
+		e.judge(c, line)
+		c.Hit("dead-race:" + strings.Join(rel, ","))
+		c.Emit(line, "release="+strings.Join(rel, ",")+" "+e.state(), true)
 	case "load-ok", "load-err":
 		if w[0] == "load-err" {
 			e.contested = true
@@ -458,6 +559,8 @@ func runAside(c *Ctx) {
 		{"reset lua=0", "put " + hx("stored"), "get 0", "get 1", "del", "get 0", "load-ok " + hx("rueidisid:user"), "load-ok " + hx("ok"), "!results"},
 		{"reset lua=1 typed=1", "get 0", "get 1", "load-ok " + hx("t"), "!results"},
 		{"reset lua=0", "get 0", "get-race 1 " + hx("raced"), "!results", "get 2"},
+		{"reset lua=0", "get 0", "death 0", "dead-race 1 2", "load-ok " + hx("a"), "load-ok " + hx("b"), "!results"},
+		{"reset lua=1", "get 0", "death 0", "dead-race 2 1", "load-err", "load-ok " + hx("c"), "load-ok " + hx("d"), "!results"},
 		{"reset lua=1", "get 0", "get 1", "get-race 1 " + hx("r2"), "!results"},
 		{"reset lua=0", "get 0", "get-race 0 " + hx("same-client"), "!results"},
 		{"reset lua=0", "get 0", "get 0", "get 0", "death 0", "refresh 0", "load-ok " + hx("x"), "load-ok " + hx("y"), "!results"},
